@@ -176,4 +176,12 @@ var checks = map[string]check{
 			"conflicting sets are used only where no listed finding can apply",
 		},
 	},
+	"C08": {
+		ID: "C08", Pkg: "c08", NeedBin: true, MaxPar: 8,
+		Jobs: []job{
+			{Run: "^TestCalls$", Quick: 3, QShards: 8, Thor: 40, TShards: 14},
+		},
+		Rule:   "IDL models with services (void/value/oneway, 0-6 args, 0-3 throws incl. typedef'd exceptions, extends local / across files / same Go package, names that are Go keywords or generated identifiers) x 20-50 call sequences of 1-8 calls on one connection through generated client -> loop-back transport -> generated processor with a recording handler synthesised from the generated interface; handler args, caller result/exception/application exception, raw request and reply messages judged by the reference codec; non-trivial = service has a base or >=1 throws and the sequence mixes >=2 outcome kinds, distinct by program+service+calls",
+		Assume: []string{"the IDL method <-> Go method correspondence is learnt by behaviour (the name the generated client puts on the wire)", "a oneway request may be typed CALL or ONEWAY (apache's TStandardClient sends CALL); only the absence of a reply is asserted", "constants are switched off so that programs C01/C06 findings would reject do not occur"},
+	},
 }
